@@ -73,6 +73,8 @@ Record labobs := mk_labobs {
 Inductive case :=
   (* dnssec.VerifyDSWithWork *)
 | CaseDS (keys : list key) (dsset : list rr) (unsup : bool) (e : option err)
+  (* dnssec.DSMatchedKeys: materials of the keys returned (ascending, distinct) *)
+| CaseMatched (keys : list key) (dsset : list rr) (matched : list N)
   (* dnssec.VerifyRRSIGWithWork; names in Go string order *)
 | CaseSig (names : list name) (now : Z) (signer : name) (keys : list key) (ans ns : list rr) (ok : bool) (e : option err)
   (* dnssec.VerifyWildcardAnswerForZoneWithWork with the next-closer oracle's answers *)
@@ -138,6 +140,8 @@ Definition check_case (c : case) : bool :=
   match c with
   | CaseDS keys dsset unsup e =>
       let '(u, e') := verify_ds keys dsset in Bool.eqb u unsup && opt_err_eqb e' e
+  | CaseMatched keys dsset matched =>
+      nlist_eqb (sort_by N.ltb (dedup_by N.eqb (map k_mat (ds_matched dsset keys)))) matched
   | CaseSig names now signer keys ans ns ok e =>
       let '(ok', e') := verify_rrsig (fun n => name_index names n 0) now signer keys ans ns in
       Bool.eqb ok' ok && opt_err_eqb e' e
@@ -214,6 +218,13 @@ Definition spec_case (c : case) : bool :=
                   | _ => false end) dsset
       | Some _ => true
       end
+  | CaseMatched keys dsset matched =>
+      (* every key handed back is, itself, the preimage of a supported DS of the set and bound to it *)
+      forallb (fun m => existsb (fun k => (k_mat k =? m) && existsb (fun d => match r_rd d with
+                  | RdDS tag alg dt dg _ => supported_digest dt && supported_alg alg && (k_tag k =? tag) && (k_alg k =? alg) &&
+                      (k_class k =? r_class d) && name_eqb (k_owner k) (r_owner d) && (k_proto k =? 3) && zone_bit (k_flags k) &&
+                      digest_eqb dg (DigOf dt (k_owner k) (k_flags k) (k_proto k) (k_alg k) (k_mat k))
+                  | _ => false end) dsset) keys) matched
   | CaseSig names now signer keys ans ns ok e =>
       if ok then spec_rrsig now signer keys ans ns && match e with None => true | _ => false end
       else match e with Some _ => true | None => false end
